@@ -334,7 +334,7 @@ def method_params(fn):
 
 
 class ReValInfo:
-    __slots__ = ('cls', 'line', 'tag', 'kind', 'name', 'pattern', 'mode', 'expr')
+    __slots__ = ('cls', 'line', 'tag', 'kind', 'name', 'pattern', 'mode', 'expr', 'flags')
 
     def __init__(self, **kw):
         for k in self.__slots__:
@@ -389,12 +389,14 @@ def _reval(ev, k, call, re_node, val_node, defaults):
     except Unresolved as e:
         raise AnalysisError('%s:%d ReVal tag not evaluable (%s)' % (k.mod.rel, call.lineno, e))
     inner = re_node
+    flags = 'uncompiled'
     while True:
-        nxt, _f, wrapped = strip_safe_regexp(inner)
+        nxt, f_, wrapped = strip_safe_regexp(inner)
         if not wrapped:
             break
+        flags = 'default' if f_ is None else ast.unparse(f_)
         inner = nxt
-    info = ReValInfo(cls=k, line=call.lineno, tag=tag, expr=ast.unparse(inner), kind='unknown')
+    info = ReValInfo(cls=k, line=call.lineno, tag=tag, expr=ast.unparse(inner), kind='unknown', flags=flags)
     if isinstance(inner, ast.Call) and is_self_attr(inner.func, '_generate_format_regex'):
         info.kind = 'format'
         if inner.args:
